@@ -108,6 +108,11 @@ func c08(r *Run) {
 		}
 	}
 	expiredRule(r, waitFlush, "ErrWriteTimeout", "C08.R4")
+	// a Flush in progress is not overtaken by the teardown (the finalizer stops the flushing lock before it frees the slot and
+	// closes the descriptor: C05.R8), and the dispatch function returns the slot token on every path, also when there is
+	// nothing to send (a slot left busy ignores every later writable event: C10.R1)
+	r.borrow([]string{"C05.R8:stop-flushing-first", "C05.R8:free-slot-before-close-fd"}, "C05.R8", "C08.R5", func() { c05(r) })
+	r.borrow([]string{"C10.R1:token-released"}, "C10.R1", "C08.R6", func() { c10(r) })
 
 	// ---- R2 nil means drained ---------------------------------------------------------------------
 	emptyTrue := lenZeroFact(true)
@@ -161,23 +166,28 @@ func c08(r *Run) {
 	}
 	// Flush (the method) has no success of its own: it returns an Exception (closed, concurrent) or what flush() reports -
 	// "nothing new was written" is not "everything was sent" (bytes committed before a timed-out Flush are still unsent)
-	{
-		fm := w.MustFn("(*connection).Flush")
+	for _, mm := range []struct {
+		name string
+		idx  int
+	}{{"Flush", 0}, {"Write", 1}} {
+		fm := w.MustFn("(*connection)." + mm.name)
 		n := 0
 		for _, ins := range allIns(fm) {
 			ret, ok := ins.(*ssa.Return)
-			if !ok || len(ret.Results) != 1 {
+			if !ok || len(ret.Results) != mm.idx+1 {
 				continue
 			}
 			n++
 			okv := true
-			for _, v := range resultValues(ret, 0) {
+			for _, v := range resultValues(ret, mm.idx) {
 				if isNilConst(v) {
 					okv = false
 				}
 			}
-			r.ob(fmt.Sprintf("C08.R2:Flush-has-no-success-of-its-own#%d", n), "Flush returns nil only through flush(): no early 'nothing to do' success - data committed before an earlier Flush timed out is still in the buffer and must be sent by the retry", fm, ret, okv, "returns flush() or an Exception", true)
+			r.ob(fmt.Sprintf("C08.R2:%s-has-no-success-of-its-own#%d", mm.name, n), mm.name+" returns a nil error only through flush(): no early 'nothing to do' success (an empty Write, ...) - data committed before an earlier call timed out is still in the buffer and must be sent by the retry", fm, ret, okv, "returns flush() or an Exception", true)
 		}
+	}
+	{
 		// after write interest was armed every signal is the answer to this Flush: waitFlush uses every value it receives from the
 		// trigger (a receive whose value is dropped would throw the completion, or the close error, away)
 		for _, ins := range allIns(waitFlush) {
@@ -430,6 +440,30 @@ func isTriggerValue(v ssa.Value) bool {
 		}
 	case *ssa.TypeAssert:
 		return isTriggerValue(x.X)
+	case *ssa.Call:
+		// a module helper that does the (non-blocking) receive: each of its results is nil or a value taken from the trigger,
+		// and at least one is the latter
+		f := x.Call.StaticCallee()
+		if f == nil || f.Blocks == nil || f.Pkg == nil || !isModulePkg(f.Pkg.Pkg) || f.Signature.Results().Len() != 1 {
+			return false
+		}
+		some := false
+		for _, b := range f.Blocks {
+			ret, ok := b.Instrs[len(b.Instrs)-1].(*ssa.Return)
+			if !ok {
+				continue
+			}
+			for _, rv := range resultValues(ret, 0) {
+				if isNilConst(rv) {
+					continue
+				}
+				if _, isCall := rv.(*ssa.Call); isCall || !isTriggerValue(rv) {
+					return false
+				}
+				some = true
+			}
+		}
+		return some
 	case *ssa.Phi:
 		for _, e := range x.Edges {
 			if !isTriggerValue(e) {
